@@ -33,16 +33,19 @@ structure Toy where
   chunk : Nat
   deriving DecidableEq, Repr
 
+/-- the window is exhausted: `partial`, or `ok` with input left over at the head of a call -/
+def toyFull (p : Toy) (st room cnt : Nat) (acc : List Nat) : StepOut Nat Nat :=
+  ⟨if p.okFull ∧ room = 0 ∧ cnt = 0 then .ok else .part, st, cnt, acc.reverse⟩
+
 /-- one call of `do_in` / `do_out`; `cnt` = units consumed in this call, `acc` = output so far (reversed) -/
 def toyGo (p : Toy) : Nat → List Nat → Nat → Nat → List Nat → StepOut Nat Nat
   | st, [], _, cnt, acc => ⟨.ok, st, cnt, acc.reverse⟩
   | st, c :: r, room, cnt, acc =>
     if p.chunk ≠ 0 ∧ cnt ≥ p.chunk then ⟨if p.okLeft then .ok else .part, st, cnt, acc.reverse⟩
     else
-      let full : StepOut Nat Nat := ⟨if p.okFull ∧ room = 0 ∧ cnt = 0 then .ok else .part, st, cnt, acc.reverse⟩
       if st ≠ 0 then
         -- `c` is the follower of the pending lead `st - 1`
-        if room = 0 then full
+        if room = 0 then toyFull p st room cnt acc
         else toyGo p 0 r (room - 1) (cnt + 1) (((st - 1 + c) % 256) :: acc)
       else
         let b := c % 256
@@ -53,7 +56,7 @@ def toyGo (p : Toy) : Nat → List Nat → Nat → Nat → List Nat → StepOut 
           else toyGo p (1 + b) r room (cnt + 1) acc
         else
           let need := 1 + b % 3
-          if need > room then full
+          if need > room then toyFull p st room cnt acc
           else toyGo p 0 r (room - need) (cnt + 1) (List.replicate need ((b + 1) % 256) ++ acc)
 
 def toyStep (p : Toy) (st : Nat) (inp : List Nat) (window : Nat) : StepOut Nat Nat := toyGo p st inp window 0 []
